@@ -20,7 +20,7 @@ RULE = (
   "evaluation = one (limit or companion) run; non-trivial = worlds with >=2 distinct N*; at L=0 only niter==0 is judged"
 )
 ASSUMPTIONS = ["CPU device; same batch size and world position in all compared runs, so bitwise equality is demanded", "L=0: the statement does not pin the ITERATIONS bit (no tolerance test is ever evaluated)"]
-BUDGET = {"quick": dict(examples=160, seconds=150, workers=16), "thorough": dict(examples=3000, seconds=1500, workers=16)}
+BUDGET = {"quick": dict(examples=160, seconds=420, workers=16), "thorough": dict(examples=3000, seconds=1500, workers=16)}
 
 
 def strategy(tier):
